@@ -725,6 +725,23 @@ def c31(idx: Index, rep: Report, tier: str) -> None:
     rep.count("size_fixpoint_loops", nc)
     rep.require_min(rule_c, "size_fixpoint_loops", 1)
 
+    # (d) "known in one element, unknown in another" is a contradiction only for the *same application* f(args): the
+    # bookkeeping of knowledge_compatible is keyed by the expression it iterates over, never by the bare function
+    rule_d = "C31.7 def-use knowledge-conflicts-are-per-application"
+    kc = idx.func("engines.compilers.interpreted_functions_remover.knowledge_compatible")
+    kcfg = cfg_of(kc)
+    kdu = DefUse(kcfg)
+    nd_ = 0
+    for nd, c in cfg_nodes_with_call(kcfg, "append"):
+        if not (c.args and isinstance(c.args[0], ast.Tuple) and len(c.args[0].elts) == 2):
+            continue
+        nd_ += 1
+        src = kdu.sources(c.args[0].elts[1], nd)
+        through_fun = any(any(seg.rstrip("()") == "interpreted_function" for seg in ch) for ch in src)
+        rep.check(not through_fun, rule_d, "the recorded key is the application, not its function symbol", kc.loc(c), construct=norm(c)[:70] + ("" if not through_fun else " — keyed by .interpreted_function()"), detail="" if not through_fun else "two different applications of one interpreted function (score(a) known, score(b) unknown) are taken for a contradiction: the variant of the action that mixes them is not generated, the compiled problem loses the plans that need it and the meta-engine reports a solvable problem as unsolvable", function=kc.qualname)
+    rep.count("knowledge_keys", nd_)
+    rep.require_min(rule_d, "knowledge_keys", 2)
+
 
 # ------------------------------------------------------------------------------------ C33
 class _SetInterp:
@@ -990,6 +1007,30 @@ def c33(idx: Index, rep: Report, tier: str) -> None:
     rep.count("feature_mutators", nd_)
     rep.require_min(rule_d, "feature_mutators", 2)
 
+    # (e) union / intersection are computed on the features brought to a common version; the result is labelled with
+    # exactly that version. A result whose version is left to be inferred from its own features can come out lower
+    # (an intersection can drop every newer feature), and the deprecated features ignored in the operands count again
+    rule_e = "C33.8 def-use lattice-results-carry-the-common-version"
+    pk = idx.cls("model.problem_kind.ProblemKind")
+    ne = 0
+    for mname in ("union", "intersection"):
+        m = pk.methods.get(mname)
+        if m is None:
+            raise AnalysisError(f"{rule_e}: ProblemKind.{mname} vanished")
+        unpacked = set()
+        for a in walk_no_nested(m.node):
+            if isinstance(a, ast.Assign) and isinstance(a.targets[0], ast.Tuple) and isinstance(a.value, ast.Call) and call_name(a.value) == "equalize_versions" and len(a.targets[0].elts) == 3 and isinstance(a.targets[0].elts[2], ast.Name):
+                unpacked.add(a.targets[0].elts[2].id)
+        for r in walk_no_nested(m.node):
+            if not (isinstance(r, ast.Return) and isinstance(r.value, ast.Call) and call_name(r.value) == "ProblemKind"):
+                continue
+            ne += 1
+            ver = [k.value for k in r.value.keywords if k.arg == "version"] + list(r.value.args[1:2])
+            ok = bool(ver) and isinstance(ver[0], ast.Name) and ver[0].id in unpacked
+            rep.check(ok, rule_e, f"{mname}: the result is built with the version equalize_versions returned", m.loc(r), construct=norm(r)[:90], detail="" if ok else "the result's version is not the common version of the operands (it may be None, i.e. inferred from the surviving features): an intersection that keeps only version-1 features is then a version-1 kind whose deprecated features count again, so it is not below its operands and differs from the same intersection taken with declared versions", function=m.qualname)
+    rep.count("lattice_results", ne)
+    rep.require_min(rule_e, "lattice_results", 2)
+
 
 # ------------------------------------------------------------------------------------ C32
 def c32(idx: Index, rep: Report, tier: str) -> None:
@@ -1159,6 +1200,18 @@ def c36(idx: Index, rep: Report, tier: str) -> None:
         rep.check(ok, rule6, "a state is declared equal to another only after both were condensed (hashed)", eq.loc(nd.ast), construct=norm(nd.ast)[:90] + ("" if ok else " — reachable without hash(self) == hash(oth)"), detail="" if ok else "the un-condensed `_values` of a child is only its own updates: two children that agree on every fluent but re-state an inherited value differently compare unequal (and the answer changes once they are hashed)", function=eq.qualname)
     rep.count("equality_answers", n6)
     rep.require_min(rule6, "equality_answers", 1)
+
+    # the constructor decides "root or child" once: `self._father` is bound to the parameter and to nothing else, so
+    # the filter on default-valued entries (a root stores none, a child stores all) and the ancestor count speak
+    # about the same father
+    rule7 = "C36.7 T11 father-bound-once-in-the-constructor"
+    init = idx.func("model.state.UPState.__init__")
+    fstores = [a for a in walk_no_nested(init.node) if isinstance(a, (ast.Assign, ast.AugAssign)) and any(isinstance(t, ast.Attribute) and norm(t.value) == "self" and t.attr == "_father" for t in (a.targets if isinstance(a, ast.Assign) else [a.target]))]
+    iparams = set(init.params())
+    ok = len(fstores) == 1 and isinstance(fstores[0], ast.Assign) and isinstance(fstores[0].value, ast.Name) and fstores[0].value.id in iparams
+    rep.check(ok, rule7, "UPState.__init__ binds self._father once, to the father it was given", init.loc(fstores[0]) if fstores else init.loc(), construct=f"{len(fstores)} store(s) of self._father: " + "; ".join(norm(a)[:40] for a in fstores[:3]), detail="" if ok else "the father is replaced after the decision whether default-valued entries are kept was (or will be) taken on the constructor's argument: a state can end up without a father while holding default-valued entries, which breaks the normal form that __eq__ and __hash__ rely on (equal valuations compare unequal)", function=init.qualname)
+    rep.count("father_stores", len(fstores))
+    rep.require_min(rule7, "father_stores", 1)
 
 
 # ------------------------------------------------------------------------------------ C38
@@ -1345,6 +1398,26 @@ def c35(idx: Index, rep: Report, tier: str) -> None:
                 rep.check(dep, rule, "the written value is the drawn one", g.loc(c), construct=norm(c)[:90], detail="" if dep else "a constant is written instead of the value of the model", function=g.qualname)
     rep.count("model_loops", n)
     rep.require_min(rule, "model_loops", 1)
+
+    # every initial constraint of the problem (oneof / or) is asserted to the solver that draws the hidden state
+    rule6 = "C35.6 T2 every-initial-constraint-is-asserted"
+    asserts = {nd for nd, c in cfg_nodes_with_call(cfg, "append") if isinstance(c.func, ast.Attribute) and isinstance(c.func.value, ast.Name) and c.args and isinstance(c.args[0], ast.Call) and call_name(c.args[0]) in ("Or", "ExactlyOne", "And", "Not")}
+    n6 = 0
+    for l in cfg.nodes:
+        if l.kind != "for" or not any(k in norm(l.owner.iter) for k in ("or_constraints", "oneof_constraints")):
+            continue
+        n6 += 1
+        body = {nd for nd in cfg.nodes if nd.ast is not None and any(x is nd.ast for st in l.owner.body for x in ast.walk(st))}
+        first = [s_ for s_ in cfg.g.successors(l) if s_ in body]
+        inside = {a for a in asserts if a in body}
+        w = None
+        for s_ in first:
+            if s_ not in inside:
+                w = w or cfg.path_avoiding(s_, l, inside)
+        ok = bool(inside) and w is None
+        rep.check(ok, rule6, f"each element of {norm(l.owner.iter).split('.')[-1]} becomes a solver constraint", g.loc(l.owner), construct=f"for {norm(l.owner.target)} in {norm(l.owner.iter)[:40]}: " + ("always asserted" if ok else "an iteration can end without asserting it"), detail="" if ok else "a constraint is skipped on the strength of its shape: the drawn hidden state can violate it (e.g. `(or (not a) b)` with a true and b false), so the environment starts in a state that is not an initial state of the problem", function=g.qualname, path=path_text(w) if w else None)
+    rep.count("initial_constraint_loops", n6)
+    rep.require_min(rule6, "initial_constraint_loops", 2)
 
     rule_g = "C35.5 def-use state-lookups-take-ground-expressions"
     envf = [fi for fi in idx.all_funcs() if fi.module.name == "unified_planning.model.contingent.execution_environment"]
